@@ -349,7 +349,7 @@ def clane_runs(ctx):
     plan = [("overflow", ctx.seed * 1000 + 1, 1, 0, 1)]               # fixed corpus first: the width-field overflow witness
     nseeds = 3 if quick else 10
     for i in range(nseeds):
-        plan.append(("mix", ctx.seed * 1000 + 10 + i, 6 if quick else 10, [0, 200, 450][i % 3], 2 if quick else 4))
+        plan.append(("mix", ctx.seed * 1000 + 10 + i, 4 if quick else 10, [0, 200, 450][i % 3], 1 if quick else 4))
     fails, mism, trc, wordc, ownc, stats = [], [], [], [], [], {}
     for scn, seed, rounds, pm, scale in plan:
         text = run_harness(seed, rounds, pm, scale, scn)
@@ -400,4 +400,8 @@ def replay(ctx, obj):
             print("  re-run: %d failures, %d mismatches" % (len(f2), len(m2)))
             for x in f2[:5]:
                 print("   ", x["what"])
+            for x in m2[:3]:
+                print("   ", x["what"], x.get("detail"))
+            if f2 or m2:
+                rc = 1
     return rc
